@@ -607,12 +607,23 @@ def extract_const(repo, file, name, fold=False, as_name=None):
 DIRECTIVE = re.compile(r"/\*@extract\s+(fn|struct|const|enum|fragment)\b(.*?)@\*/", re.S)
 
 
-def extract_fragment(repo, file, name, impl, frm, to, nth=0):
+def extract_fragment(repo, file, name, impl, frm, to, nth=0, from_nth=None):
     """R8: the statements of a function body from the line containing `frm` up to (not including) the line containing
     `to`, verbatim (after R2/R3/R4), to be wrapped by a hand-written function in the template."""
     src = open(os.path.join(repo, file)).read()
     start, fnpos, body_open, end = find_fn(src, name, impl=impl, nth=nth)
     body = src[body_open:end]
+    if from_nth is not None:
+        # the anchor text occurs several times (twin branches): the from_nth-th occurrence is meant; the other occurrences
+        # are masked (they lie outside the fragment, which must not contain a second one)
+        parts = body.split(frm)
+        if len(parts) - 1 <= from_nth:
+            raise LostAnchor("%s::%s: occurrence %d of fragment anchor not found (%d)" % (impl, name, from_nth, len(parts) - 1))
+        masked = frm[:-1] + "\x01"
+        out = parts[0]
+        for i, part in enumerate(parts[1:]):
+            out += (frm if i == from_nth else masked) + part
+        body = out
     if to == "@block_end":
         # up to the end of the innermost block enclosing the `frm` line (robust against edits inside the fragment)
         if body.count(frm) != 1:
@@ -632,6 +643,8 @@ def extract_fragment(repo, file, name, impl, frm, to, nth=0):
                 b = body.rfind("\n", 0, e - 1) + 1
                 break
         frag = body[a:b]
+        if "\x01" in frag:
+            raise LostAnchor("%s::%s: fragment contains a second occurrence of its anchor" % (impl, name))
         frag, _n = drop_log_statements(frag)
         frag, _m = rewrite_asserts(frag)
         frag, _k = rewrite_error_payloads(frag)
@@ -787,7 +800,7 @@ def expand(template_text, repo):
             hdr_kv = dict(kv)
             fm = re.search(r'from="((?:[^"\\]|\\.)*)"', header)
             tm = re.search(r'to="((?:[^"\\]|\\.)*)"', header)
-            frag, orig = extract_fragment(repo, kv["file"], kv["name"], kv.get("impl"), fm.group(1), tm.group(1), int(kv.get("nth", 0)))
+            frag, orig = extract_fragment(repo, kv["file"], kv["name"], kv.get("impl"), fm.group(1), tm.group(1), int(kv.get("nth", 0)), from_nth=(int(kv["from_nth"]) if "from_nth" in kv else None))
             fname = (kv.get("impl", "") + "::" if kv.get("impl") else "") + kv["name"]
             _spec, f_inserts, f_rewrites = _parse_fn_block(block)
             _sig, frag = apply_edits(fname + "[fragment]", "", frag, f_rewrites, f_inserts, notes)
